@@ -82,11 +82,9 @@ func (i *interpreter) toNative(fr *frame, v value, depth int) interface{} {
 		}
 		if depth < 3 {
 			if f := i.hasMethod(x.t, "Error"); f != nil && f.Signature.Params().Len() == 0 {
-				if p, ok := x.v.(*value); ok && p == nil {
-					return nativeStringer{"<nil>"}
-				}
-				r := i.call(fr, fr.fn.Pos(), f, []value{x.v})
-				return nativeErr{fmt.Sprint(i.toNative(fr, r, depth+1))}
+				// Error() methods are not interpreted: message formatting is the classic source of path explosion and
+				// the text of an error never decides control flow in the code under test.
+				return nativeErr{"<" + x.t.String() + ">"}
 			}
 			if f := i.hasMethod(x.t, "String"); f != nil && f.Signature.Params().Len() == 0 && f.Signature.Results().Len() == 1 {
 				if p, ok := x.v.(*value); ok && p == nil {
@@ -261,7 +259,8 @@ func extErrorf(fr *frame, a []value) value {
 			}
 		}
 	}
-	msg := i.sprintf(fr, strings.ReplaceAll(format, "%w", "%v"), args)
+	// the message is the format string itself (operands are not rendered, see toNative)
+	msg := format
 	switch len(wrapped) {
 	case 0:
 		return i.newErrorString(msg)
